@@ -96,3 +96,63 @@ Proof.
   intros H Hu Hd. destruct (dependencies_of_ok g target res H) as (_ & T & _).
   apply in_split in Hu as (pre & post & E). exists pre, post. split; [exact E|]. eapply T; eauto.
 Qed.
+
+(* ---------- a cycle among the dependencies reachable from the target: no order is delivered ---------- *)
+(* one or more dependency edges *)
+Inductive reach1 (g : depgraph) : str -> str -> Prop :=
+| reach1_step a b c : In b (gdeps g a) -> reach g b c -> reach1 g a c.
+
+Lemma nodup_split_unique {A} (x : A) : forall pre1 post1 pre2 post2,
+  NoDup (pre1 ++ x :: post1) -> pre1 ++ x :: post1 = pre2 ++ x :: post2 -> pre1 = pre2 /\ post1 = post2.
+Proof.
+  induction pre1 as [|a t IH]; intros post1 pre2 post2 ND E2; destruct pre2 as [|b u]; cbn in *.
+  - injection E2 as ->. split; reflexivity.
+  - injection E2 as <- E2. exfalso. inversion ND as [|? ? Hx _]; subst. apply Hx. apply in_or_app. right. left. reflexivity.
+  - injection E2 as -> E2. exfalso. inversion ND as [|? ? Hx _]; subst. apply Hx. apply in_or_app. right. left. reflexivity.
+  - injection E2 as <- E2. inversion ND as [|? ? _ ND']; subst. destruct (IH post1 u post2 ND' E2) as [-> ->]. split; reflexivity.
+Qed.
+
+(* in a duplicate-free topological order, whatever is reachable from u by one or more edges lies strictly before u *)
+Lemma topo_reach_before g res : NoDup res -> topo g res ->
+  forall b v, reach g b v -> forall pre post, res = pre ++ b :: post -> In v pre \/ v = b.
+Proof.
+  intros ND T b v R. induction R as [a|a b c Hab Rbc IH]; intros pre post E; [right; reflexivity|left].
+  pose proof (T pre a post E b Hab) as Hb.
+  apply in_split in Hb as (p1 & p2 & Ep). subst pre.
+  specialize (IH p1 (p2 ++ a :: post)). rewrite <- app_assoc in E. cbn [app] in E.
+  destruct (IH E) as [Hc| ->]; apply in_or_app; [left; exact Hc|right; left; reflexivity].
+Qed.
+
+Theorem order_has_no_cycle g target res u :
+  dependencies_of g target = Some res -> In u res -> ~ reach1 g u u.
+Proof.
+  intros HD Hu Hc. destruct (dependencies_of_ok g target res HD) as (ND & T & _).
+  apply in_split in Hu as (pre & post & E). inversion Hc as [a b c Hab Rbc Ea Ec]. subst a c.
+  pose proof (T pre u post E b Hab) as Hb. apply in_split in Hb as (p1 & p2 & Ep). subst pre.
+  assert (E' : res = p1 ++ b :: (p2 ++ u :: post)) by (rewrite E, <- app_assoc; reflexivity).
+  destruct (topo_reach_before g res ND T b u Rbc p1 _ E') as [Ha|Ha].
+  - (* u occurs in p1 and again after it *)
+    rewrite E' in ND. rewrite app_comm_cons, app_assoc in ND. apply NoDup_remove_2 in ND. apply ND.
+    apply in_or_app. left. apply in_or_app. left. exact Ha.
+  - (* u = b: it occurs twice *)
+    subst b. rewrite E' in ND. apply NoDup_remove_2 in ND. apply ND.
+    apply in_or_app. right. apply in_or_app. right. left. reflexivity.
+Qed.
+
+(* everything reachable from the target is in the order ... *)
+Lemma order_closed g target res : dependencies_of g target = Some res ->
+  forall a v, reach g a v -> In a res -> In v res.
+Proof.
+  intros HD a v R. destruct (dependencies_of_ok g target res HD) as (_ & T & _).
+  induction R as [a|a b c Hab Rbc IH]; intros Ha; [exact Ha|]. apply IH.
+  apply in_split in Ha as (pre & post & E). rewrite E. apply in_or_app. left. exact (T pre a post E b Hab).
+Qed.
+
+(* ... so a cycle that the target reaches makes dependencies_of deliver nothing: the build is dropped *)
+Theorem reachable_cycle_drops g target u :
+  reach g target u -> reach1 g u u -> dependencies_of g target = None.
+Proof.
+  intros Rt Hc. destruct (dependencies_of g target) as [res|] eqn:HD; [exfalso|reflexivity].
+  destruct (dependencies_of_ok g target res HD) as (_ & _ & Ht).
+  exact (order_has_no_cycle g target res u HD (order_closed g target res HD target u Rt Ht) Hc).
+Qed.
